@@ -19,7 +19,10 @@ RULE = ("texts: every subset of {0..11} as a shuffled comma list (quick and thor
         "result_type int / float / an invalid type and reverse on/off; as_list(result_type=) and as_set(result_type=) over "
         "every rung of the ladder (auto, None, an interface instance, str, int, float, invalid) with container kind and "
         "member type compared; append(val, sort=, ignore_errors=) with an int, a decimal str and a non-numeric str; "
-        "remove(arg, ignore_errors=) with an int, a decimal str and None; insert; on empty and non-empty ranges; the "
+        "remove(arg, ignore_errors=) with an int, a decimal str and None; insert; on empty and non-empty ranges; "
+        "about 40% of these ranges are built with reverse=True and the read sequences interleave as_list()/as_set() (every cast) with "
+        "iteration, len, str(), repr(), obj[k] (inside and beyond the end), == against a freshly parsed range and the raw obj.data "
+        "(reverse must show in as_list only; reading must not change the object); the "
         "generator steers values to members / non-members and keeps append(member, ignore_errors=True) (known finding "
         "FC14a, after which the oracle stops judging that sequence) to a small share. A float range ('' only) gets "
         "reads only. Anchored statements executed by the quick run: 194 of 326 (was 141); the 132 left are "
@@ -40,7 +43,8 @@ LEVEL_TEXT = ("Theorems (Lean 4, all inputs, no bound on size or magnitude): acc
               "holds each member once, ascending, descending exactly under reverse=True); appendX_plain / removeX_plain (default flags = "
               "append / remove), appendX_ignore_new, removeX_ignore, appendX_other_forms (sort=False, str and non-numeric values), "
               "appendX_ignore_dup_witness (known finding FC14a: append(member, ignore_errors=True) leaves the member twice); readersX_pure, "
-              "readersX_pure_seq, failedX_pure, stepX_old_state. "
+              "readersX_pure_seq, failedX_pure, stepX_old_state; reverse_only_in_as_list / reverse_not_in_readers (every call other than as_list answers "
+              "and acts the same under either reverse flag), further_readers (obj.data = iteration, obj[k] and its IndexError, == against a freshly parsed range). "
               "The model is tied to CiscoRange(result_type=int) by differential runs on every check "
               "(all 4096 subsets of 0..11 plus random interval lists and accessor/mutator sequences).")
 LEVEL_NOTE = ("Trusted: Lean kernel; axioms propext/Classical.choice/Quot.sound only; the correspondence harness; model of int() "
@@ -128,7 +132,10 @@ def _rand_xops(rng, text):
             ops.append(rng.choice(["list", "set"]) + ":" + rng.choice(VIEW_TYPES))
         elif r < 0.35:
             ops.append(rng.choice(READS + ["has:%d" % n]))
-        elif r < 0.65:
+        elif r < 0.45:
+            ops.append(rng.choice(["str", "repr", "eqfresh", "data", "idx:%d" % rng.choice([0, 0, 1, 2, 5, len(cur), len(cur) + 1,
+                                                                                              max(0, len(cur) - 1)])]))
+        elif r < 0.7:
             ign = rng.choice("01")
             if ign == "1" and n in cur and rng.random() < 0.85:
                 # appending a member with ignore_errors=True is the known finding FC14a, after which the oracle stops
@@ -150,8 +157,8 @@ def _rand_xops(rng, text):
         if ":s" in ops[-1]:
             ops.append("iter")      # a str argument may be refused or converted: the oracle looks at once which it was
         elif rng.random() < 0.5:
-            ops.append(rng.choice(["iter", "len", "list", "cstr"]))
-    ops += ["iter", "list:int", "cstr"]
+            ops.append(rng.choice(["iter", "len", "list", "cstr", "data", "str", "set", "eqfresh"]))
+    ops += ["iter", "list:int", "data", "cstr"]
     return ops
 
 
@@ -164,6 +171,10 @@ X_FIXED = [
                     "remx:i1:0", "remx:i1:1", "remx:j:0", "remx:j:1", "appx:j:10", "appx:j:11", "appx:s4:10", "iter",
                     "appx:s4:11", "iter", "len", "list:int"]),
     ("", "int", 1, ["appx:i4:00", "appx:i2:00", "iter", "list", "appx:i3:10", "iter", "list:str", "cstr"]),
+    ("1-3,7", "int", 1, ["list", "data", "iter", "set", "data", "str", "repr", "idx:0", "idx:3", "idx:4", "eqfresh", "list:str", "data",
+                         "len", "eqfresh"]),
+    ("", "int", 1, ["str", "repr", "idx:0", "eqfresh", "data", "list", "data"]),
+    ("", "float", 1, ["str", "repr", "idx:0", "eqfresh", "data"]),
     ("1-3,7", "int", 1, ["list", "set", "iter", "cstr", "list:str", "list:int", "list:float", "set:float", "list:none",
                          "set:none", "list:inst", "set:inst", "list:bad", "set:bad", "ins:5", "iter"]),
     ("1-3,7", "int", 0, ["appx:s9:10", "appx:j:10", "appx:j:11", "appx:s9:11", "iter", "remx:s9:1", "iter", "remx:s9:0",
@@ -319,6 +330,19 @@ def _impl_x(case):
                 out.append(wire.enc_nats(list(CiscoRange(obj.as_compressed_str(), result_type=int))))
             elif name == "has":
                 out.append("T" if int(f[1]) in obj else "F")
+            elif name == "str":
+                out.append(wire.enc_str(str(obj)))
+            elif name == "repr":
+                out.append(wire.enc_str(repr(obj)))
+            elif name == "idx":
+                v = obj[int(f[1])]
+                out.append(str(v) if type(v) is int else "?" + repr(v)[:40])
+            elif name == "eqfresh":
+                r = obj == CiscoRange(case["text"], result_type=rt)
+                out.append("T" if r is True else "F" if r is False else "?" + repr(r)[:40])
+            elif name == "data":
+                d = obj.data
+                out.append(wire.enc_nats(d) if type(d) is list and all(type(x) is int for x in d) else "?" + repr(d)[:60])
             elif name == "app":
                 obj.append(int(f[1]))
                 out.append("ok")
@@ -434,7 +458,7 @@ def ref_compress(members):
     return ",".join(out)
 
 
-def _judge_x(state, op, got, rev):
+def _judge_x(state, op, got, rev, case_text="", rt_is_int=True):
     """One call against one candidate state (members, iteration still ordered?, member duplicated by an ignored
     append or None).  Returns (complaint or None, successor states).  A str / None argument is outside what the
     property fixes: such a call may be refused or taken as the integer it spells, nothing else."""
@@ -443,6 +467,33 @@ def _judge_x(state, op, got, rev):
     name = f[0]
     asc = sorted(cur)
     same = [state]
+    label = name
+    if name == "data":
+        # the raw member list is what iteration shows
+        name = "iter"
+    elif name in ("str", "repr"):
+        text = wire.dec_str(got) if got.startswith("s") else got
+        if name == "repr":
+            m = re.fullmatch(r"<CiscoRange (\[[0-9, ]*\]) (members|result_type): <class '(int|float)'>>", text)
+            if not m or (m.group(2) == "members") != bool(cur) and dup is None:
+                return f"repr is {text[:80]!r}", same
+            text = m.group(1)
+        if not re.fullmatch(r"\[(\d+(, \d+)*)?\]", text):
+            return f"{name} is {text[:80]!r}", same
+        name, got = "iter", text[1:-1].replace(" ", "")
+    elif name == "idx":
+        k = int(f[1])
+        if dup is not None or not ordered:
+            return None, same
+        if k < len(asc):
+            return (None if got == str(asc[k]) else f"obj[{k}] is {got} expected {asc[k]}"), same
+        return (None if got == "err:IndexError" else f"obj[{k}] beyond the end gives {got}"), same
+    elif name == "eqfresh":
+        if dup is not None or not ordered:
+            return None, same
+        fresh = ref_denote(case_text) if rt_is_int else set()
+        want = "T" if cur == fresh else "F"
+        return (None if got == want else f"== against a freshly parsed range is {got}, members {'unchanged' if want == 'T' else 'changed'}"), same
     if name == "len":
         if int(got) != len(cur):
             if dup is not None and int(got) > len(cur):
@@ -455,9 +506,9 @@ def _judge_x(state, op, got, rev):
         if dup is not None and len(seen) > len(set(seen)) and sorted(set(seen)) == sorted(map(str, asc)):
             return f"duplicate-after-ignore: append({dup}, ignore_errors=True) of a member: iter gives {got[:60]}", None
         if ordered and got != wire.enc_nats(asc):
-            return f"iter view is {got[:80]} expected ascending {wire.enc_nats(asc)[:80]}", same
+            return f"{label} view is {got[:80]} expected ascending {wire.enc_nats(asc)[:80]}", same
         if not ordered and sorted(seen) != sorted(map(str, asc)):
-            return f"iter view is {got[:80]}, members are {wire.enc_nats(asc)[:80]}", same
+            return f"{label} view is {got[:80]}, members are {wire.enc_nats(asc)[:80]}", same
     elif name in ("list", "set"):
         t = f[1] if len(f) > 1 else "auto"
         if t in ("none", "inst", "bad"):
@@ -552,7 +603,7 @@ def _oracle_x(case, ans):
     for op, got in zip(case["ops"], fields):
         nxt, msgs = [], []
         for st in states:
-            msg, succ = _judge_x(st, op, got, rev)
+            msg, succ = _judge_x(st, op, got, rev, case["text"], rt == "int")
             if msg is None:
                 nxt += [s for s in succ if s not in nxt]
             else:
